@@ -4,7 +4,7 @@ from harness import sx, common as C
 
 N_QUICK, N_THOROUGH = 1500, 50000
 RULE = ("programs of 1..12 operations over 1-D histogram variables on shared consecutive bins (75%) or adaptive fixed-width bins that additions have to adapt (25%): h1(data, weights), empty and "
-        "bare-frequency construction, fill, fill_n (any chunking incl. empty batches), +, +=, copy, *= c, /= c, -, array += under "
+        "bare-frequency construction, fill, fill_n (any chunking incl. empty batches), +, +=, a refused += (incompatible operand), copy, *= c, /= c, -, array += under "
         "free arithmetics; data strictly inside the bins, dyadic values and weights (sums of products exact). After every "
         "operation the six statistics fields, mean(), variance(), std()**2 of the affected histogram are read. non-trivial = "
         ">=3 operations of >=2 different kinds touching >=1 non-empty data set")
@@ -46,7 +46,8 @@ def gen(rng, n, tier):
             elif r < 0.5:
                 wt = rng.random() < 0.5; ops.append(["fill_n", rng.randrange(nv), gen_data(rng, wt, 5), "T" if wt else "F"])
             elif r < 0.62: ops.append(["add", rng.randrange(nv), rng.randrange(nv)]); nv += 1
-            elif r < 0.7: ops.append(["iadd", rng.randrange(nv), rng.randrange(nv)])
+            elif r < 0.67: ops.append(["iadd", rng.randrange(nv), rng.randrange(nv)])
+            elif r < 0.7: ops.append(["badiadd", rng.randrange(nv)])
             elif r < 0.78: ops.append(["copy", rng.randrange(nv)]); nv += 1
             elif r < 0.86: ops.append(["mul", rng.randrange(nv), Fr(rng.choice([2, 3, 4, 1, 5]), rng.choice([1, 2, 4]))])
             elif r < 0.92: ops.append(["div", rng.randrange(nv), Fr(rng.choice([2, 4, 8, 1]), rng.choice([1, 2]))])
@@ -110,6 +111,13 @@ def impl(case):
             elif k == "add": env.append(env[op[1]] + env[op[2]]); x = len(env) - 1
             elif k == "iadd":
                 x = op[1]; other = env[op[2]] if op[2] != x else env[x].copy(); env[x] += other
+            elif k == "badiadd":
+                # an in-place addition that must be refused: bins elsewhere (not adaptive), or an operand of another dimension
+                x = op[1]
+                other = physt.h1(np.array([100.5, 101.5]), np.array([100.0, 101.0, 102.0, 103.0])) if not env[x].is_adaptive() \
+                    else physt.h2(np.array([1.0, 2.0]), np.array([1.0, 2.0]), [np.array([0.0, 4.0]), np.array([0.0, 4.0])])
+                try: env[x] += other
+                except Exception: pass
             elif k == "copy": env.append(env[op[1]].copy()); x = len(env) - 1
             elif k == "mul":
                 x = op[1]; c = op[2]; env[x] *= (int(c) if c.denominator == 1 else float(c))
